@@ -44,6 +44,34 @@ def oracleC10 (kind : Kind) (w : Nat → Nat → Nat) (t : Trace) : Bool :=
       | [] => true
     go t
 
+/-! ### C11: live key / value objects
+
+The harness uses instrumented key and value types that count constructions, clones and
+drops; the models track object identities. Whenever nothing is queued (always, on the
+single-threaded cache; after `sync()` on the concurrent one) the number of live key objects
+and the number of live value objects both equal the number of entries the map holds. The
+observation of `drop` (the last handle to the cache goes, operations possibly still
+queued) is represented as a snapshot of an empty cache carrying the live counts, so the
+same rule demands that everything is released. -/
+
+def liveOk (sn : Snap) : Bool :=
+  !(sn.rq == 0 && sn.wq == 0) ||
+    (sn.liveK == sn.entries.length && sn.liveV == sn.entries.length)
+
+/-- Between maintenance runs of the concurrent cache the extra live objects are bounded by
+what the queues hold: each queued write pins at most one key and one value object, each
+queued read at most one value object. -/
+def liveBounded (sn : Snap) : Bool :=
+  decide (sn.liveK ≤ sn.entries.length + sn.prob.length + sn.wo.length + sn.wq) &&
+  decide (sn.liveV ≤ sn.entries.length + sn.wq + sn.rq)
+
+def oracleC11 : Trace → Bool
+  | [] => true
+  | (_, .panic _) :: _ => true
+  | (_, .badOp) :: _ => true
+  | (_, .snap sn) :: rest => liveOk sn && liveBounded sn && oracleC11 rest
+  | _ :: rest => oracleC11 rest
+
 /-! ### Reference bookkeeping for the lookup properties (C01, C05, C06, C07, C16)
 
 The oracle walks the trace keeping, per key, the value and clock reading of the most recent
@@ -495,14 +523,60 @@ def growthC12 (cap : Nat) (ttl tti : Option Nat) (batch : Nat) : Trace → Bool
   | _ :: rest => growthC12 cap ttl tti batch rest
   | [] => true
 
+/-- State of the recency walk: the last quiescent snapshot, the keys used since (in order of
+use) and whether the segment is one the rule speaks about. -/
+structure RecSt where
+  prev : Option Snap := none
+  moved : List Nat := []
+  valid : Bool := true
+
+def quiescent (sn : Snap) : Bool := sn.rq == 0 && sn.wq == 0 && sn.prob.all (·.current)
+
+/-- The recency order after a segment: the survivors in their old relative order, then the
+keys used in the segment (insert, update, successful get) in order of use. -/
+def expectedOrder (before after : Snap) (moved : List Nat) : List Nat :=
+  let stay := lruOrder after
+  (lruOrder before).filter (fun k => stay.contains k && !moved.contains k) ++
+    moved.filter (stay.contains ·)
+
+/-- "Recency is order of use": the access-order list seen in a quiescent snapshot is the one
+of the previous quiescent snapshot with the key used in between moved to the most recently
+used end and the departed keys removed. `multi` = the single-threaded cache, where any
+number of uses between two snapshots is applied in program order; on the concurrent cache
+the rule is applied to segments with at most one use (maintenance applies recorded reads
+before recorded writes, so longer segments have their own order). -/
+def recencyWalk (multi : Bool) : RecSt → Trace → Bool
+  | _, [] => true
+  | st, (op, ob) :: rest =>
+    match ob with
+    | .panic _ => true
+    | .badOp => true
+    | _ =>
+    let use (k : Nat) : RecSt :=
+      { st with moved := st.moved.filter (· != k) ++ [k], valid := st.valid && (multi || st.moved.isEmpty) }
+    match op, ob with
+    | .snap, .snap sn =>
+      if quiescent sn then
+        (match st.prev with
+         | some b => !st.valid || lruOrder sn == expectedOrder b sn st.moved
+         | none => true) && recencyWalk multi { prev := some sn } rest
+      else recencyWalk multi st rest
+    | .get k, .val (some _) => recencyWalk multi (use k) rest
+    | .ins k _, _ => recencyWalk multi (use k) rest
+    | _, _ => recencyWalk multi st rest
+
+def recencyC12 (kind : Kind) (t : Trace) : Bool :=
+  recencyWalk (kind == .unsync) {} t
+
 /-- C12: whenever residents leave for size — at an admission (same patterns as C13) or to
-work off an excess — they are the shortest sufficient prefix of the recency order. -/
+work off an excess — they are the shortest sufficient prefix of the recency order, and the
+recency order is the order of use. -/
 def oracleC12 (kind : Kind) (cap ttl tti : Option Nat) (wf : Nat → Nat → Nat) (batch : Nat)
     (t : Trace) : Bool :=
   match cap, kind with
-  | none, _ => true
-  | some c, .unsync => admitC13 c ttl tti wf t && growthC12 c ttl tti batch t
-  | some c, .sync => admitC13Sync c ttl tti wf t
+  | none, k => recencyC12 k t
+  | some c, .unsync => admitC13 c ttl tti wf t && growthC12 c ttl tti batch t && recencyC12 .unsync t
+  | some c, .sync => admitC13Sync c ttl tti wf t && recencyC12 .sync t
 
 end Spec
 end MiniMoka
